@@ -14,7 +14,9 @@ from ..ref import clock
 FIXED_EPOCHS = [1_700_000_000 + k * 7_654_321 % 63_072_000 for k in range(96)]
 MALFORMED = ["21:00\n", "21:00\r\n", "21:00\n:junk", "21:00 x", "21:00\t", "\n21:00x", "12:30Z", "12:30+02", "08:15-11", "21:00+0545", "06:45.5", "1_2:30", "12:3_0", "12:30am", "T12:30", "12h30", "0x0c:1e",
              "", "2100", "21", "ab:cd", "x1:00", "12:y", "24:00", "25:10", "99:99", "12:60", "12:75",
-             "-1:30", "12:-5", ":", ":30", "12:", "noon", "1200:", "12;30", "１２:３０"]
+             "-1:30", "12:-5", ":", ":30", "12:", "noon", "1200:", "12;30", "１２:３０",
+             # text that means something to the formatting / parsing machinery underneath
+             "%H:%M", "%M:%S", "%I:%M", "%k:%M", "%H:00", "07:%M", "%d:%m", "%%:00", "12:%%", "{}:{}", "{0}:00", "%s:%s", "%(h)s:00", "\\d\\d:00", "*:30", "..:..", "12:3.", "[0-9]:00"]
 
 
 class Shown(str):
@@ -35,6 +37,17 @@ class Raw(bytes):
 def instants_for(zone: str, r, n_random: int):
     """Virtual 'now' instants: around every transition of the zone, year ends, leap days, random."""
     out = []
+    # the hours before another zone's transition while that zone still shares this zone's offset (Lagos before Berlin springs forward,
+    # UTC before London does): what is keyed by 'the offset right now' cannot tell the two apart there
+    partners = []
+    for z in env.ZONES:
+        if z == zone:
+            continue
+        for t in clock.transitions(z, 2024, 2027):
+            if clock.local(z, t - 1).utcoffset() == clock.local(zone, t - 1).utcoffset() and clock.local(z, t).utcoffset() != clock.local(zone, t).utcoffset():
+                partners.append(t - r.randrange(600, 5 * 3600))
+    r.shuffle(partners)
+    out += partners[:10]
     for t in clock.transitions(zone):
         for delta_days in (-1, 0, 1):
             base = t + delta_days * 86400
@@ -83,7 +96,7 @@ class C11(Prop):
             inst = instants_for(zone, r, n_random)
             if tier == "quick":
                 # all transition-adjacent instants are kept; cap the rest
-                inst = inst[:60] + inst[-(n_random + 17):]
+                inst = inst[:70] + inst[-(n_random + 17):]
             for now in inst:
                 if i % nshards == shard:
                     yield {"zone": zone, "now": now}
@@ -154,6 +167,10 @@ class C11(Prop):
             # the same 96 instants decoded under this zone and, right after, under another one (the host zone may change
             # while the process lives): a result remembered from the first zone is wrong in the second
             z2 = env.ZONES[(env.ZONES.index(zone) + 1 + now % (len(env.ZONES) - 1)) % len(env.ZONES)]
+            alike = clock.confusable(zone, now, env.ZONES)
+            if alike and now % 4 != 3:
+                z2 = alike[now % len(alike)]      # a zone easily mistaken for this one: same offset right now, or same abbreviations
+                acc.count("zone_switches_to_a_confusable_zone")
             for zz in (zone, z2, zone):
                 clock.set_zone(zz)
                 for e in FIXED_EPOCHS:
@@ -167,22 +184,22 @@ class C11(Prop):
                     if got != clock.hhmm_of(zz, e):
                         acc.violation("decode-wrong-time:after-zone-change", f"epoch {e} in {zz} (right after decoding it in another zone) decoded {got}, "
                                       f"want {clock.hhmm_of(zz, e)}", {"epoch": e, "got": got, "zone": zz})
-                # and the encoder: the same strings right after the zone changed
-                if zz == z2:
-                    t2 = clock.local(z2, now).date()
-                    for m in (0, 61, 725, 1439):
-                        want2 = clock.epochs_of(z2, t2, m // 60, m % 60)
+                # and the encoder: the same strings under the first zone and, right after the zone changed, under the second
+                if True:
+                    t2 = clock.local(zz, now).date()
+                    for m in (0, 61, 725, 1439, (now // 7) % 1440, (now // 11) % 1440, (now // 13) % 1440, 600, 601):
+                        want2 = clock.epochs_of(zz, t2, m // 60, m % 60)
                         if not want2:
                             continue
                         acc.ev()
                         try:
                             g2 = int.from_bytes(bytes.fromhex(enc(f"{m // 60:02d}:{m % 60:02d}")), "little")
                         except Exception as exc:
-                            acc.violation("encode-raised", f"{m} in {z2} raised {type(exc).__name__}", {})
+                            acc.violation("encode-raised", f"{m} in {zz} raised {type(exc).__name__}", {})
                             continue
                         if g2 not in want2:
-                            acc.violation("encode-wrong-epoch:after-zone-change", f"{m // 60:02d}:{m % 60:02d} in {z2} on {t2} (right after encoding it in "
-                                          f"{zone}) encoded as {g2}, want one of {want2}", {"zone": z2})
+                            acc.violation("encode-wrong-epoch:after-zone-change", f"{m // 60:02d}:{m % 60:02d} in {zz} on {t2} (right after encoding it in "
+                                          f"{zone if zz == z2 else z2}) encoded as {g2}, want one of {want2}", {"zone": zz})
             acc.count("zone_switches_inside_a_case", 2)
             for _ in range(64):
                 e = r.randrange(0, 2 ** 32) if r.random() < 0.2 else now + r.randrange(-400 * 86400, 400 * 86400)
